@@ -302,6 +302,7 @@ theorem WInv.accept {w : World} (hw : WInv w) (hn : (chans w.accept).Nodup) : WI
           subst hj
           exact FlowOK.fresh w.cm w.sm _ c _ rfl (by simp [MuxL.send, CONNECT])
             (noStream_of_owned hw.ownedC hnotin) (noStream_of_owned hw.ownedS hnotin)
+            (nConnect_of_owned hw.ownedC hnotin) (nConnect_of_owned hw.ownedS hnotin)
       · simp only [chans, List.map_append, List.map_cons, List.map_nil]
         show Owned (chans w ++ [c]) (w.cm.send c Generated.CMD_TCP_CONNECT []).out
         simp only [MuxL.send]
